@@ -316,18 +316,20 @@ func (ac *affCtx) form(v ssa.Value) *affForm {
 			}
 		}
 	case *ssa.Call:
-		if callee, ok := ac.inlinable(x); ok {
-			if rv, ok := singleReturn(callee, 0); ok && callee.Signature.Results().Len() == 1 {
-				if b, isB := rv.Type().Underlying().(*types.Basic); isB && b.Info()&types.IsInteger != 0 {
-					return ac.child(callee, x).form(rv)
-				}
-			}
-		}
 		// a repo function applied to constants only folds to a constant (e.g. note.Octave(1).Semitone() = 12)
 		if callee := staticCallee(&x.Call); callee != nil && ac.c.isRepoFunc(callee) && len(x.Call.Args) > 0 {
 			var args []fval
 			allConst := true
 			for _, a := range x.Call.Args {
+				// a constant, or an immutable package-level value whose initialiser folds (MiddleC)
+				if ld, ok := stripConv(a).(*ssa.UnOp); ok && ld.Op == token.MUL {
+					if g, ok := ld.X.(*ssa.Global); ok {
+						if gv := ac.c.globalTable(g); gv.k != nil || gv.fields != nil {
+							args = append(args, gv)
+							continue
+						}
+					}
+				}
 				k, ok := stripConv(a).(*ssa.Const)
 				if !ok || k.Value == nil {
 					allConst = false
@@ -340,6 +342,13 @@ func (ac *affCtx) form(v ssa.Value) *affForm {
 					if n, ok := constant.Int64Val(constant.ToInt(r.k)); ok {
 						return affConst(n)
 					}
+				}
+			}
+		}
+		if callee, ok := ac.inlinable(x); ok {
+			if rv, ok := singleReturn(callee, 0); ok && callee.Signature.Results().Len() == 1 {
+				if b, isB := rv.Type().Underlying().(*types.Basic); isB && b.Info()&types.IsInteger != 0 {
+					return ac.child(callee, x).form(rv)
 				}
 			}
 		}
